@@ -111,8 +111,12 @@ def one_study(ctx, k):
     import shutil
     shutil.rmtree(out)
     env = dict(os.environ, PYTHONPATH=os.environ.get("PYTHONPATH", ""))
+    # --usetmp writes the scripts into one temporary directory; every step must
+    # still run in, and leave its captured output in, its own workspace
+    usetmp = rng.random() < 0.3
     p = subprocess.run([sys.executable, os.path.join(VERIF, "harness", "cli_launcher.py"),
-                        "run", "-fg", "-y", spec_path, "-o", out, "-s", "1", "--attempts", str(attempts)],
+                        "run", "-fg", "-y", spec_path, "-o", out, "-s", "1", "--attempts", str(attempts)]
+                       + (["--usetmp"] if usetmp else []),
                        stdout=subprocess.PIPE, stderr=subprocess.PIPE, text=True, timeout=600, cwd=base)
     rc = p.returncode
     runlog = open(log_real).read().split("\n") if os.path.exists(log_real) else []
